@@ -20,7 +20,12 @@ type SpecFnDef struct {
 	Rec     bool
 	Deps    []string
 	Err     string
+	HeapTags []Sort   // heaps passed as leading parameters (heap-reading spec functions)
+	Shapes   []Shape  // shape of each Go parameter
 }
+
+// specHeapSorts: the heaps a heap-reading spec function receives.
+var specHeapSorts = []Sort{SBV(8), SBV(16), SInt}
 
 // isSpecFn: a function defined in a verif_contracts file.
 func (e *Engine) isSpecFn(fn *ssa.Function) bool {
@@ -38,20 +43,50 @@ func specFnName(fn *ssa.Function, mode Mode) string {
 // specFnCallSSA applies a spec function from SSA code.
 func (fc *FnCtx) specFnCallSSA(fn *ssa.Function, args []Value) Value {
 	def := fc.eng.specFnDef(fn, fc.mode)
-	var ts []Term
-	for i, a := range args {
-		if a.K != KLeaf {
-			fc.unbound = append(fc.unbound, "spec function "+fn.Name()+" applied to an aggregate")
-			return fc.freshValue("specres", shapeOf(fn.Signature.Results().At(0).Type(), fc.mode))
-		}
-		t := a.T
-		if i < len(def.Params) && t.Sort != def.Params[i].Sort {
-			fc.unbound = append(fc.unbound, fmt.Sprintf("spec function %s: argument %d sort %s, expected %s", fn.Name(), i, t.Sort, def.Params[i].Sort))
-		}
-		ts = append(ts, t)
+	ts, err := fc.specArgs(def, fc.cur, args)
+	if err != nil {
+		fc.unbound = append(fc.unbound, "spec function "+fn.Name()+": "+err.Error())
+		return fc.freshValue("specres", shapeOf(fn.Signature.Results().At(0).Type(), fc.mode))
 	}
 	fc.useSpec(def.Name)
 	return Leaf(mk(def.Result, smtName(def.Name), ts...))
+}
+
+// specArgs builds the SMT argument list: heaps first, then the flattened value arguments.
+func (fc *FnCtx) specArgs(def *SpecFnDef, st *State, args []Value) ([]Term, error) {
+	var ts []Term
+	// a spec function applied to a pointer into a frozen (write-once) global reads the
+	// frozen contents, like every other load through such a pointer
+	if !fc.initPhase {
+		for _, a := range args {
+			if a.K == KPtr && fc.eng.frozenIDs[a.Obj().S] {
+				st = frozenState
+			}
+		}
+	}
+	for _, hs := range def.HeapTags {
+		ts = append(ts, st.heap[hs])
+	}
+	k := len(def.HeapTags)
+	for i, a := range args {
+		if a.K == KOpaque {
+			return nil, fmt.Errorf("opaque argument %d", i)
+		}
+		for _, l := range a.Leaves() {
+			if k >= len(def.Params) {
+				return nil, fmt.Errorf("too many argument leaves")
+			}
+			if l.Sort != def.Params[k].Sort {
+				return nil, fmt.Errorf("argument %d has sort %s, want %s", i, l.Sort, def.Params[k].Sort)
+			}
+			ts = append(ts, l)
+			k++
+		}
+	}
+	if k != len(def.Params) {
+		return nil, fmt.Errorf("argument shape mismatch")
+	}
+	return ts, nil
 }
 
 func (fc *FnCtx) useSpec(name string) {
@@ -80,32 +115,44 @@ func (e *Env) applySpecFn(fobj *types.Func, argExprs []ast.Expr) sval {
 	if len(argExprs) != sig.Params().Len() {
 		specPanic("spec function %s: wrong number of arguments", fn.Name())
 	}
-	var ts []Term
+	var vals []Value
 	for i, ae := range argExprs {
 		a := e.coerce(e.eval(ae), sig.Params().At(i).Type())
-		if a.v.K != KLeaf {
-			specPanic("spec function %s: aggregate argument", fn.Name())
-		}
-		t := a.v.T
-		want := def.Params[i].Sort
-		if t.Sort != want {
-			// bridge Int <-> BV
-			switch {
-			case t.Sort == SInt && want.IsBV():
-				t = int2bv(t, want.BVWidth())
-			case t.Sort.IsBV() && want == SInt:
-				t = fc.toIndex(t, a.t)
-			case t.Sort.IsBV() && want.IsBV() && a.t != nil:
-				t = fc.convertIntSorts(t, a.t, want.BVWidth())
-			default:
-				specPanic("spec function %s: argument %d has sort %s, want %s", fn.Name(), i, t.Sort, want)
+		v := a.v
+		if v.K == KLeaf && i < len(def.Shapes) && def.Shapes[i].K == KLeaf {
+			want := def.Shapes[i].Sort
+			t := v.T
+			if t.Sort != want {
+				switch {
+				case t.Sort == SInt && want.IsBV():
+					t = int2bv(t, want.BVWidth())
+				case t.Sort.IsBV() && want == SInt:
+					t = fc.toIndex(t, a.t)
+				case t.Sort.IsBV() && want.IsBV() && a.t != nil:
+					t = fc.convertIntSorts(t, a.t, want.BVWidth())
+				default:
+					specPanic("spec function %s: argument %d has sort %s, want %s", fn.Name(), i, t.Sort, want)
+				}
 			}
+			v = Leaf(t)
 		}
-		ts = append(ts, t)
+		vals = append(vals, v)
+	}
+	ts, aerr := fc.specArgs(def, e.st, vals)
+	if aerr != nil {
+		specPanic("spec function %s: %v", fn.Name(), aerr)
 	}
 	fc.useSpec(def.Name)
 	if fc.collectApps && def.Rec {
-		fc.apps = append(fc.apps, specApp{def, ts})
+		bound := false
+		for _, t := range ts {
+			if strings.Contains(t.S, "!q") {
+				bound = true // argument mentions a quantified variable: no ground unfolding
+			}
+		}
+		if !bound {
+			fc.apps = append(fc.apps, specApp{def, ts})
+		}
 	}
 	return sval{v: Leaf(mk(def.Result, smtName(def.Name), ts...)), t: sig.Results().At(0).Type()}
 }
@@ -143,13 +190,25 @@ func (e *Engine) specFnDef(fn *ssa.Function, mode Mode) *SpecFnDef {
 		return def
 	}
 	def.Result = rs.Sort
+	heapReading := false
+	for _, p := range fn.Params {
+		if shapeOf(p.Type(), mode).K != KLeaf {
+			heapReading = true
+		}
+	}
+	if heapReading {
+		def.HeapTags = specHeapSorts
+		for _, hs := range specHeapSorts {
+			def.Params = append(def.Params, Term{"Hspec_" + sortTag(hs), heapSort(hs)})
+		}
+	}
 	for _, p := range fn.Params {
 		ps := shapeOf(p.Type(), mode)
-		if ps.K != KLeaf {
-			def.Err = "spec function parameters must be scalars"
+		if ps.K == KOpaque {
+			def.Err = "spec function parameter of unsupported type"
 			return def
 		}
-		def.Params = append(def.Params, Term{smtName("a_" + p.Name()), ps.Sort})
+		def.Shapes = append(def.Shapes, ps)
 	}
 	fc := e.newFnCtx(fn)
 	fc.mode = mode
@@ -189,8 +248,10 @@ func (fc *FnCtx) pureBody(def *SpecFnDef) (string, error) {
 	fc.entry = st.clone()
 	fc.cur = st
 	for i, p := range fn.Params {
-		fc.vals[p] = Leaf(def.Params[i])
-		fc.params[p.Name()] = fc.vals[p]
+		n := 0
+		v := namedValue("a_"+p.Name(), def.Shapes[i], &n, &def.Params)
+		fc.vals[p] = v
+		fc.params[p.Name()] = v
 		fc.paramT[p.Name()] = p.Type()
 	}
 	fc.curBlk = 0
@@ -333,4 +394,19 @@ func (a specApp) unfolding() Term {
 	}
 	app := fmt.Sprintf("(%s %s)", smtName(a.def.Name), strings.Join(args, " "))
 	return Term{fmt.Sprintf("(= %s (let (%s) %s))", app, strings.Join(lets, " "), a.def.Body), SBool}
+}
+
+// namedValue builds a parameter value whose leaves are fresh SMT parameter names.
+func namedValue(base string, sh Shape, n *int, params *[]Term) Value {
+	if sh.K == KLeaf {
+		t := Term{smtName(fmt.Sprintf("%s_%d", base, *n)), sh.Sort}
+		*n++
+		*params = append(*params, t)
+		return Leaf(t)
+	}
+	v := Value{K: sh.K}
+	for _, e := range sh.E {
+		v.E = append(v.E, namedValue(base, e, n, params))
+	}
+	return v
 }
